@@ -147,3 +147,124 @@ def drop_row_alignment(chk, cid, prog, p, cfgname):
         from ..run import AnalysisBroken
         raise AnalysisBroken('%s: %d row-removal blocks found, expected 2' % (f.name, n))
     return n
+
+
+# ---------------------------------------------------------------- option-controlled choices in ?gstrf / ?gsitrf, decided by evaluating the condition
+def eval_options(e, f, val, enums, depth=0):
+    """truth / integer value of an expression over option fields under the valuation val (field name -> enum constant value); None if it depends on
+    anything else.  Locals defined once from such an expression are looked through (fact = options->Fact)."""
+    from ..facts import strip, const_value
+    e = strip(e)
+    cv = const_value(e)
+    if cv is not None:
+        return cv
+    if e.k == 'Ref':
+        nm = e.a.get('name')
+        if nm in enums and e.a.get('dk') == 'EnumConstantDecl':
+            return enums[nm]
+        if depth < 3 and e.a.get('id') in f.locals:
+            ds = [x for x in f.body.walk() if (x.k == 'Assign' and x.a['op'] == '=' and strip(x.c[0]).k == 'Ref' and strip(x.c[0]).a.get('id') == e.a['id'])
+                  or (x.k == 'Var' and x.a.get('id') == e.a['id'] and x.c)]
+            if len(ds) == 1:
+                return eval_options(ds[0].c[1] if ds[0].k == 'Assign' else ds[0].c[0], f, val, enums, depth + 1)
+        return None
+    if e.k == 'Member' and e.a.get('arrow') and strip(e.c[0]).k == 'Ref' and strip(e.c[0]).a.get('name') == 'options':
+        return val.get(e.a['name'])
+    if e.k == 'Unary' and e.a['op'] == '!':
+        v = eval_options(e.c[0], f, val, enums, depth)
+        return None if v is None else int(not v)
+    if e.k == 'Binary':
+        op = e.a['op']
+        a, b = eval_options(e.c[0], f, val, enums, depth), eval_options(e.c[1], f, val, enums, depth)
+        if op == '&&':
+            if a == 0 or b == 0:
+                return 0
+            return None if a is None or b is None else 1
+        if op == '||':
+            if (a is not None and a != 0) or (b is not None and b != 0):
+                return 1
+            return None if a is None or b is None else 0
+        if a is None or b is None:
+            return None
+        if op in ('==', '!=', '<', '<=', '>', '>='):
+            return int({'==': a == b, '!=': a != b, '<': a < b, '<=': a <= b, '>': a > b, '>=': a >= b}[op])
+    return None
+
+
+def option_choice_rules(chk, cid, prog, p, cfgname):
+    """(1) ?gstrf / ?gsitrf pick heap_relax_snode exactly when SymmetricMode = YES (sp_preorder post-orders the tree exactly when it is NO, and
+    relax_snode needs a post-ordered tree), whatever ColPerm and Fact are.  (2) The remembered row permutation is used (usepr, handed to ?pivotL by
+    address) exactly when Fact = SamePattern_SameRowPerm: for SamePattern perm_r is output only.  Both are decided by evaluating the controlling
+    expressions under every valuation of (Fact, SymmetricMode, ColPerm)."""
+    from ..facts import strip, callee_name, loc
+    from ..ir import pretty
+    E = prog.enums
+    facts = ['DOFACT', 'SamePattern', 'SamePattern_SameRowPerm', 'FACTORED']
+    syms = ['NO', 'YES']
+    perms = ['NATURAL', 'MMD_ATA', 'MMD_AT_PLUS_A', 'COLAMD', 'MY_PERMC']
+    n = 0
+    for fname, heap, plain in ((p + 'gstrf', 'heap_relax_snode', 'relax_snode'), (p + 'gsitrf', 'ilu_heap_relax_snode', 'ilu_relax_snode')):
+        f = prog.func(fname)
+        if f is None:
+            from ..run import AnalysisBroken
+            raise AnalysisBroken('%s not found' % fname)
+        chk.saw(unit=f.unit, func=f.unit + ':' + f.name)
+        sel = None
+        for x in f.body.walk():
+            if x.k == 'If' and len(x.c) > 2 and any(y.k == 'Call' and callee_name(y) == heap for y in x.c[1].walk()) \
+                    and any(y.k == 'Call' and callee_name(y) == plain for y in x.c[2].walk()):
+                sel = (x, True)
+            elif x.k == 'If' and len(x.c) > 2 and any(y.k == 'Call' and callee_name(y) == plain for y in x.c[1].walk()) \
+                    and any(y.k == 'Call' and callee_name(y) == heap for y in x.c[2].walk()):
+                sel = (x, False)
+        n += 1
+        inst = '%s:heap-relaxation-iff-symmetric-mode' % fname
+        if sel is None:
+            chk.violate(cid, inst, loc(f, f.body), fname, 'cannot find the choice between %s and %s' % (heap, plain), cfgname=cfgname)
+        else:
+            bad = None
+            for fa in facts:
+                for sy in syms:
+                    for pc in perms:
+                        v = eval_options(sel[0].c[0], f, {'Fact': E[fa], 'SymmetricMode': E[sy], 'ColPerm': E[pc]}, E)
+                        if v is None:
+                            bad = bad or ('the condition `%s` depends on more than the options' % pretty(sel[0].c[0])[:60])
+                            continue
+                        picks_heap = bool(v) == sel[1]
+                        if picks_heap != (sy == 'YES'):
+                            bad = bad or ('SymmetricMode = %s, ColPerm = %s, Fact = %s selects %s' % (sy, pc, fa, heap if picks_heap else plain))
+            if bad is None:
+                chk.ok(cid, inst, sample=pretty(sel[0].c[0])[:60])
+            else:
+                chk.violate(cid, inst, loc(f, sel[0]), fname,
+                            '%s must be used exactly when SymmetricMode = YES (the tree is post-ordered exactly when it is NO, and %s requires a post-ordered tree): %s'
+                            % (heap, plain, bad), cfgname=cfgname)
+        # usepr
+        up = None
+        for x in f.body.walk():
+            if x.k == 'Call' and (callee_name(x) or '').endswith('pivotL'):
+                for a in x.c[1:]:
+                    a = strip(a)
+                    if a.k == 'Unary' and a.a['op'] == '&' and strip(a.c[0]).k == 'Ref' and strip(a.c[0]).a.get('name') == 'usepr':
+                        up = strip(a.c[0])
+        if up is not None:
+            n += 1
+            inst = '%s:remembered-pivots-only-for-SameRowPerm' % fname
+            ds = [x for x in f.body.walk() if x.k == 'Assign' and x.a['op'] == '=' and strip(x.c[0]).k == 'Ref' and strip(x.c[0]).a.get('id') == up.a['id']]
+            bad = None
+            if len(ds) != 1:
+                bad = 'usepr has %d definitions' % len(ds)
+            else:
+                for fa in facts:
+                    v = eval_options(ds[0].c[1], f, {'Fact': E[fa], 'SymmetricMode': E['NO'], 'ColPerm': E['COLAMD']}, E)
+                    if v is None:
+                        bad = bad or 'its definition `%s` depends on more than options->Fact' % pretty(ds[0].c[1])[:50]
+                    elif bool(v) != (fa == 'SamePattern_SameRowPerm'):
+                        bad = bad or 'Fact = %s gives usepr = %d' % (fa, v)
+            if bad is None:
+                chk.ok(cid, inst, sample=pretty(ds[0])[:60])
+            else:
+                chk.violate(cid, inst, loc(f, ds[0] if ds else f.body), fname,
+                            'the row permutation of a previous factorization may steer the pivoting only for Fact = SamePattern_SameRowPerm (for SamePattern perm_r is '
+                            'output only, so the result would depend on what the array held): %s' % bad, cfgname=cfgname)
+    return n
